@@ -103,7 +103,14 @@ func aliveScenarios(tier string) []*simScenario {
 	if tier == "thorough" {
 		dev = 4
 	}
-	out := []*simScenario{scenStress(dev)}
+	// a transfer whose timeout-now answer is still held back when the transfer ends (by its timer, by step-down)
+	late := scenTransfer(xferSeed{"late-answer", 3, []uint64{1, 2, 3}, nil, []string{"T:1", "run", "admin:1:transfer:2", "deliver:2"}, nil}, dev, false)
+	late.Name = "alive-transfer-late-answer"
+	late.Menu = simMenu{Timeouts: true, MaxTerm: 4, Drops: true}
+	late.Crashes = 0
+	late.Final = "shutdown"
+	late.MaxDev = dev - 2
+	out := []*simScenario{late, scenStress(dev)}
 	for _, b := range []*simScenario{
 		scenSnap(snapSeeds[snapSeedIndex("lagging")], dev, false, true, 2),
 		scenMember(memberSeedByName("3v"), dev, 2, 0, true, nil, 1),
